@@ -138,6 +138,34 @@ CLAIMS["C17"] = (
     "Assumes lark raises Exception subclasses; str methods on the text do not raise.",
     "DESIGN.md §3 C17",
 )
+CLAIMS["C04"] = (
+    "typestate decision tree of ASTNode._deserialize, writer/reader table agreement, placeholder->singleton mapping, format pairing, index table pairing",
+    "Static analysis decides the structural clauses of the round trip: a registry hit under the serialized id is returned as is; otherwise the re-created node's id is compared with "
+    "the serialized one and, if different, the provisional key is removed, the id forced and the node registered under it, in that order; the tag key and value agree between writer and "
+    "reader, subclasses are registered under their class name, unknown names raise; every {} placeholder is mapped back to its singleton, singletons carry no init-able state; each "
+    "to_X/from_X pair uses the same dialect and codec options; the source index is written and read against tables filled together. The value-level fidelity of the round trip "
+    "(mashumaro code generated at run time, orjson, msgpack, yaml) cannot be decided by static analysis and is not claimed.",
+    "Assumes mashumaro/orjson/msgpack/PyYAML round-trip the representable values; registry states along histories are not decided.",
+    "DESIGN.md §3 C04",
+)
+CLAIMS["C06"] = (
+    "structural analysis of the table fill (full traversal, same-record triples, xpath spelling), identity discipline scan, decision trees of the queries",
+    "Both Tree tables are filled from one full traversal with (parent, field, index) of the same record; the xpath of a node is its parent's xpath plus '/@field[index or 0]Class'; the "
+    "membership table contains the root, the parent table does not; all node comparisons in the queries are identity tests; foreign nodes hit a table subscription (KeyError), a relative depth to a "
+    "non-ancestor raises ValueError; get_ancestors is the parent chain starting at the parent; is_ancestor / get_first_ancestor_of_type / get_depth / is_root are decided as decision trees. "
+    "That following the xpath string reaches the node is not decided.",
+    "Premise of the property: nodes hash by id and no node object occurs twice.",
+    "DESIGN.md §3 C06",
+)
+CLAIMS["C11"] = (
+    "decision tables of the two classification loops, normaliser must-pass-through, sibling agreement of the recursive predicates",
+    "process_node_fields' per-field decision table over the three predicate outcomes lands every field in exactly one of child table / property table / error list, never a node-mentioning "
+    "annotation in the property table, and raises when the error list is non-empty; check_annotations has the same table and runs on every subclass definition; every annotation reaches the "
+    "classifier through get_type_hints; the recursive predicates' treatment of NewType is compared (one known finding). The shape predicates themselves (typing introspection over the "
+    "annotation grammar) are not decided.",
+    "Assumes typing.get_type_hints semantics.",
+    "DESIGN.md §3 C11",
+)
 PENDING = "check not built yet (work in progress; see DESIGN.md for the planned static rules)"
 
 checks = []
